@@ -1,6 +1,7 @@
 //! C09 — a full queue never blocks: it drops the oldest entry, keeps order, counts losses.
 
 use crate::bq::*;
+use crate::iofault::SRes;
 use crate::engine::*;
 use crate::{vensure, vfail};
 use metrique_writer::sink::BackgroundQueueBuilder;
@@ -34,6 +35,11 @@ pub struct Case {
     /// without recorder as well)
     #[serde(default)]
     pub qkind: u8,
+    /// the stream's answers, repeated cyclically (0 Ok, 1 Validation, 2 Io); empty = always Ok.
+    /// A refused entry has still been handed to the stream: order, loss and counting rules are
+    /// the same whatever the stream answers
+    #[serde(default)]
+    pub results: Vec<u8>,
 }
 
 fn overflow_count(rec: &metrics_util_020::debugging::DebuggingRecorder) -> u64 {
@@ -54,7 +60,12 @@ pub fn check(case: &Case) -> CaseResult {
     let np = case.producers.clamp(1, 4) as usize;
     let log = Arc::new(EventLog::default());
     let gate = Gate::new(false);
-    let stream = BqStream::new(vec![], gate.clone(), log.clone());
+    let mut stream = BqStream::new(
+        case.results.iter().map(|r| match r % 3 { 0 => SRes::Ok, 1 => SRes::Validation, _ => SRes::Io }).collect(),
+        gate.clone(),
+        log.clone(),
+    );
+    stream.cycle = true;
     let recorder = Arc::new(metrics_util_020::debugging::DebuggingRecorder::new());
     let b = BackgroundQueueBuilder::new()
         .capacity(cap)
@@ -345,6 +356,12 @@ pub fn check(case: &Case) -> CaseResult {
     if case.boxed {
         classes.push("boxed-queue");
     }
+    if case.results.iter().any(|r| r % 3 == 2) && delivered.len() > 1 {
+        classes.push("stream-answers-io-error");
+    }
+    if case.results.iter().any(|r| r % 3 == 1) && delivered.len() > 1 {
+        classes.push("stream-answers-validation-error");
+    }
     if lost > 0 && partial_progress && granted > 0 && (granted as usize) < total {
         classes.push("nt");
     }
@@ -355,7 +372,7 @@ pub fn check(case: &Case) -> CaseResult {
     Ok(classes)
 }
 
-pub const RULE: &str = "capacity 1-16 or 30-70, typed/boxed queue with a local DebuggingRecorder, writer stalled behind a fuel gate; steps: Append{producer, n<=40} (single driver, or all 2-4 producers concurrently from real threads) and Grant(k) (k=0.. units of writer progress, waited for) or GrantAsync(k) (not waited for: the following appends race with the writer's pops on a full queue). Oracle (sound necessary conditions; the writer may hold one popped entry): N1 delivered ids are a subsequence of each producer's append order (and of the global order for a single driver), nothing twice; N2 an entry is lost only if >= capacity appends ended after its append started and (single driver) >= capacity newer appends had begun before the writer delivered the first entry newer than it; N3 fully stalled single driver: the newest min(capacity, n) entries all survive and at most capacity+1 are delivered; N4 metrique_queue_overflows == number of lost entries exactly; N5 an append never blocks (10 s + causal confirmation that it completes when fuel is granted). Non-trivial = >=1 loss with partial writer progress (0 < fuel < appends)";
+pub const RULE: &str = "capacity 1-16 or 30-70, typed/boxed queue with a local DebuggingRecorder, writer stalled behind a fuel gate, the stream answering every entry Ok or a generated cycle of Ok / Validation / Io (a refused entry has been handed over all the same); steps: Append{producer, n<=40} (single driver, or all 2-4 producers concurrently from real threads) and Grant(k) (k=0.. units of writer progress, waited for) or GrantAsync(k) (not waited for: the following appends race with the writer's pops on a full queue). Oracle (sound necessary conditions; the writer may hold one popped entry): N1 delivered ids are a subsequence of each producer's append order (and of the global order for a single driver), nothing twice; N2 an entry is lost only if >= capacity appends ended after its append started and (single driver) >= capacity newer appends had begun before the writer delivered the first entry newer than it; N3 fully stalled single driver: the newest min(capacity, n) entries all survive and at most capacity+1 are delivered; N4 metrique_queue_overflows == number of lost entries exactly; N5 an append never blocks (10 s + causal confirmation that it completes when fuel is granted). Non-trivial = >=1 loss with partial writer progress (0 < fuel < appends)";
 
 /// an entry that is wide INLINE (no heap indirection): the ring buffer holds the entries themselves
 pub struct WideE<const N: usize>(pub [u8; N], pub Id);
@@ -649,7 +666,7 @@ pub fn run(ctx: &mut Ctx) {
         SubCfg::new("c09-overflow", RULE, if q { 1_200 } else { 30_000 })
             .threads(ctx.tier.pick(4, 8))
             .shrink_iters(150)
-            .mandatory(&["loss", "stalled-writer", "multi-producer", "boxed-queue", "appends-racing-with-writer", "capacity-above-32", "queue-without-recorder", "queue-of-box-entry", "reboxed-sink-through-blanket-entrysink"]),
+            .mandatory(&["loss", "stalled-writer", "multi-producer", "boxed-queue", "appends-racing-with-writer", "capacity-above-32", "queue-without-recorder", "queue-of-box-entry", "reboxed-sink-through-blanket-entrysink", "stream-answers-io-error", "stream-answers-validation-error"]),
         || {
             (
                 prop_oneof![3 => 1u8..5, 2 => 5u8..=16, 1 => 30u8..=70],
@@ -665,14 +682,16 @@ pub fn run(ctx: &mut Ctx) {
                 ),
                 prop::bool::weighted(0.35),
                 prop_oneof![3 => Just(0u8), 2 => 1u8..4],
+                prop_oneof![3 => Just(vec![]), 2 => prop::collection::vec(0u8..3, 1..6)],
             )
-                .prop_map(|(capacity, boxed, producers, steps, concurrent, qkind)| Case {
+                .prop_map(|(capacity, boxed, producers, steps, concurrent, qkind, results)| Case {
                     capacity,
                     boxed,
                     producers,
                     steps,
                     concurrent,
                     qkind,
+                    results,
                 })
         },
         check,
